@@ -48,7 +48,7 @@ def register(reg):
                           raises={"AssertionError": "self.taken or not self.resumed"}, raise_preserves_state=True,
                           ensures=["ncalls('put') == 1"], frame=[]))
     handler = {"may_raise": "AnyException", "modifies": ["flow.taken", "flow.resumed"],
-               "post": "not (flow.taken and flow.resumed)",
+               "post": "not (flow.taken and flow.resumed)", "snapshot": {"_taken_after": "flow.taken"},
                "doc": "internal handler + addon hooks: may raise anything, may take() the flow, may resume() it (once: resume refuses twice)"}
     reg.add_fn(FnContract(
         key="hippolyzer.lib.proxy.http_event_manager:MITMProxyEventManager.pump_proxy_event", relpath=EREL,
@@ -65,8 +65,11 @@ def register(reg):
         },
         may_raise={"AnyException": "", "Exception": ""},
         ensures=["implies(defined('flow'), (flow.resumed or flow.taken) and ncalls('resume') <= 1)",
-                 "implies(defined('flow'), ncalls('h_req') + ncalls('h_resp') <= 1)"],
-        ensures_on_raise=["implies(defined('flow'), (flow.resumed or flow.taken) and ncalls('resume') <= 1)"],
+                 "implies(defined('flow'), ncalls('h_req') + ncalls('h_resp') <= 1)",
+                 # a flow an addon owns when the handler is done stays with that addon: the pump neither hands it back nor disowns it
+                 "implies(defined('_taken_after') and _taken_after, flow.taken and ncalls('resume') == 0)"],
+        ensures_on_raise=["implies(defined('flow'), (flow.resumed or flow.taken) and ncalls('resume') <= 1)",
+                          "implies(defined('_taken_after') and _taken_after, flow.taken and ncalls('resume') == 0)"],
         frame=["*.taken", "*.resumed"]))
     reg.classes["HippoHTTPFlow"].props["response_injected"] = (FREL, "HippoHTTPFlow.response_injected")
     reg.add_fn(FnContract(
